@@ -1,0 +1,79 @@
+//! Verification hooks (feature `verif`). Additive only: re-exports of crate-private
+//! types and thread-local policies that make otherwise random choices (hash-map
+//! iteration order, shared-subscription RNG) a decision of the harness.
+use std::cell::RefCell;
+
+pub use crate::link::local::{PendingLink, VerifLink};
+pub use crate::link::network::{Network, N};
+pub use crate::link::remote::{mqtt_connect, RemoteLink};
+pub use crate::router::iobufs::{Incoming, Outgoing};
+pub use crate::router::{Ack, Connection, DataRequest, Event, Print, ShadowRequest};
+pub use crate::segments::{CommitLog, Position, Storage};
+pub use crate::server::{verif_remote, VerifWillHandlers};
+#[cfg(feature = "verif-snapshot")]
+pub use crate::router::verif_snapshot::*;
+
+/// How an unordered collection is presented to the code under test.
+#[derive(Debug, Clone, Copy, PartialEq, Eq, Hash)]
+pub enum OrderPolicy {
+    /// leave whatever order the hash map produced
+    Unchanged,
+    Ascending,
+    Descending,
+    /// ascending, then rotated left by k
+    Rotate(usize),
+}
+
+thread_local! {
+    static ORDER: RefCell<OrderPolicy> = const { RefCell::new(OrderPolicy::Unchanged) };
+    static PICKS: RefCell<Option<std::collections::VecDeque<usize>>> = const { RefCell::new(None) };
+}
+
+pub fn set_order_policy(p: OrderPolicy) {
+    ORDER.with(|o| *o.borrow_mut() = p);
+}
+
+/// Install the answers the "random" strategy will get (each is taken modulo the
+/// number of members); `None` restores the real RNG. When the queue runs dry index 0 is used.
+pub fn set_picks(p: Option<Vec<usize>>) {
+    PICKS.with(|q| *q.borrow_mut() = p.map(Into::into));
+}
+
+fn apply<T, K: Ord>(v: &mut Vec<T>, key: impl Fn(&T) -> K) {
+    let policy = ORDER.with(|o| *o.borrow());
+    match policy {
+        OrderPolicy::Unchanged => {}
+        OrderPolicy::Ascending => v.sort_by_key(key),
+        OrderPolicy::Descending => {
+            v.sort_by_key(key);
+            v.reverse()
+        }
+        OrderPolicy::Rotate(k) => {
+            v.sort_by_key(key);
+            if !v.is_empty() {
+                let k = k % v.len();
+                v.rotate_left(k)
+            }
+        }
+    }
+}
+
+pub(crate) fn order(mut v: Vec<usize>) -> Vec<usize> {
+    apply(&mut v, |x| *x);
+    v
+}
+
+pub(crate) fn order_retained<P>(v: &mut Vec<(crate::protocol::Publish, P)>) {
+    apply(v, |(p, _)| p.topic.clone());
+}
+
+pub(crate) fn pick(len: usize) -> Option<usize> {
+    if len == 0 {
+        return None;
+    }
+    PICKS.with(|q| {
+        q.borrow_mut()
+            .as_mut()
+            .map(|q| q.pop_front().unwrap_or(0) % len)
+    })
+}
